@@ -30,6 +30,7 @@ def dispatch (line : String) : Ans :=
   | "bot" :: r => handleBot r
   | "book" :: r => handleBook r
   | "glue" :: r => handleGlue r
+  | "bookgen" :: r => handleBookGen r
   | _ => bad
 
 partial def loop (hin hout : IO.FS.Stream) : IO Unit := do
